@@ -79,7 +79,11 @@ def rd_specs(draw, tier):
     b = draw(crystal_with_supercell(max_atoms=24, max_unit=4, max_det=8, kinds=("hall", "proto", "centred", "p1")))
     b.update(key=draw(keys), pmat=draw(st.sampled_from(["none", "auto", "centring"])), T=draw(st.sampled_from([0.0, 2.0, 50.0, 300.0, 1000.0, 3000.0])),
              dist=draw(st.sampled_from(["quantum", "quantum", "classical"])), cutoff=draw(st.sampled_from([0.01, 0.01, 0.3, 1.0])),
-             via=draw(st.sampled_from(["class", "api", "api_history"])), set_masses=draw(st.sampled_from([False, False, True])))
+             via=draw(st.sampled_from(["class", "api", "api_history"])), set_masses=draw(st.sampled_from([False, False, True])),
+             # the same crystal described in another unit system: force constants / s^2 with the frequency factor x s (class route)
+             unit_scale=draw(st.sampled_from([1.0, 1.0, 2.5, 0.1])),
+             # frequencies read and handed back through the documented setter (nothing may change)
+             reset_freqs=draw(st.booleans()))
     return b
 
 
@@ -112,8 +116,14 @@ def run_random(spec):
         T = 300.0
     factor = ph.unit_conversion_factor
     fc_cur = fc
+    fc_in = fc
+    us = 1.0
     if spec["via"] == "class":
-        rd = RandomDisplacements(ph.supercell, ph.primitive, fc, dist_func=dist, cutoff_frequency=cutoff, factor=factor)
+        us = float(spec.get("unit_scale", 1.0))
+        fc_in = fc / us ** 2
+        rd = RandomDisplacements(ph.supercell, ph.primitive, fc_in, dist_func=dist, cutoff_frequency=cutoff, factor=factor * us)
+        if spec.get("reset_freqs"):
+            rd.frequencies = np.array(rd.frequencies, copy=True)
     else:
         if spec["via"] == "api_history":
             # a first generation with other force constants and another cutoff must not influence the second one
@@ -132,7 +142,8 @@ def run_random(spec):
     Cgot = A @ A.T
     sc = max(np.abs(C).max(), 1e-300)
     e1 = np.abs(Cgot - C).max() / sc
-    classes = [dist, "via:" + spec["via"], "masses_set" if spec.get("set_masses") else "masses_built", "ii:%d" % min(nii, 8), "ij:%d" % min(nij, 8), "T:%g" % T]
+    classes = [dist, "via:" + spec["via"], "masses_set" if spec.get("set_masses") else "masses_built", "unit_scale:%g" % us,
+               "freqs_reset" if (spec["via"] == "class" and spec.get("reset_freqs")) else "freqs_untouched", "ii:%d" % min(nii, 8), "ij:%d" % min(nij, 8), "T:%g" % T]
     if e1 > 1e-8:
         return Out(ok=False, classes=classes, info={"err": e1},
                    msg="covariance of the generated displacements (A A^T from one-hot normal variates) differs from the harmonic canonical covariance: "
@@ -169,7 +180,7 @@ def run_random(spec):
         if e3 > 1e-7:
             return Out(ok=False, classes=classes, msg="reported inverse correlation matrix differs from the pseudo-inverse of the covariance: rel %.3e" % e3)
     rd.run_d2f()
-    e4 = np.abs(rd.force_constants - fc_cur).max() / max(np.abs(fc_cur).max(), 1e-300)
+    e4 = np.abs(rd.force_constants - fc_in).max() / max(np.abs(fc_in).max(), 1e-300)
     if e4 > 1e-9:
         return Out(ok=False, classes=classes, msg="run_d2f does not return the original force constants: rel %.3e" % e4)
     N = n // len(ph.primitive)
